@@ -294,7 +294,7 @@ for _p, _c in PROPS.items():
     _c["n"]["thorough"] = _c["n"]["quick"] * 10
 
 # properties whose operations also run inside heap-level programs (harness/heapext.go: xStreams)
-for _p in ("C02", "C07", "C09", "C12", "C13", "C14", "C15", "C16", "C17", "C18"):
+for _p in ("C01", "C02", "C07", "C09", "C12", "C13", "C14", "C15", "C16", "C17", "C18"):
     PROPS[_p]["alt_checks"] = ["xheap"]
     PROPS[_p]["rule"] += XHEAP_RULE
     PROPS[_p]["trusted"] = PROPS[_p].get("trusted", []) + HEAP_TRUSTED[1:] + XHEAP_TRUSTED
